@@ -43,7 +43,9 @@ func (f *Fboundp) Call(s *slip.Scope, args slip.List, depth int) slip.Object {
 	if !ok {
 		slip.TypePanic(s, depth, "symbol", args[0], "symbol")
 	}
-	if slip.CurrentPackage.GetFunc(string(sym)) != nil {
+	// FindFunc resolves a package qualified name (pkg:name, pkg::name) the way
+	// a call of the function does.
+	if slip.FindFunc(string(sym)) != nil {
 		return slip.True
 	}
 	return nil
